@@ -138,6 +138,7 @@ type Outcome struct {
 	Effects   []string
 	End       string // "return", "stop", "panic", "exit", "bound"
 	Ret       []AVal
+	RetVals   []ssa.Value // the SSA values returned (with RetVal's defer-spill resolution)
 	StopBlock *ssa.BasicBlock
 	From      *ssa.BasicBlock
 	PhiIn     map[*ssa.Phi]string // incoming value description for φs of the stop block
@@ -446,8 +447,9 @@ func (e *Explorer) instrs(fn *ssa.Function, b *ssa.BasicBlock, from int, st *Sta
 				return
 			}
 			if callee := e.inlinable(&x.Call, st); callee != nil {
-				e.inline(callee, x, &x.Call, st, func(st2 *State, ret []AVal) {
+				e.inlineV(callee, x, &x.Call, st, func(st2 *State, ret []AVal, rvals []ssa.Value) {
 					bindResult(x, ret, st2)
+					bindResultValues(x, rvals, st2)
 					e.instrs(fn, b, i+1, st2, emit)
 				}, emit)
 				return
@@ -482,11 +484,13 @@ func (e *Explorer) instrs(fn *ssa.Function, b *ssa.BasicBlock, from int, st *Sta
 			return
 		case *ssa.Return:
 			var ret []AVal
-			for _, r := range x.Results {
+			var rvals []ssa.Value
+			for i, r := range x.Results {
 				ret = append(ret, st.Eval(r))
+				rvals = append(rvals, RetVal(x, i))
 			}
 			e.Paths++
-			emit(Outcome{Effects: st.effects, End: "return", Ret: ret, Unknown: st.unknown, st: st})
+			emit(Outcome{Effects: st.effects, End: "return", Ret: ret, RetVals: rvals, Unknown: st.unknown, st: st})
 			return
 		case *ssa.Panic:
 			e.effect(in, st)
@@ -579,6 +583,10 @@ func (e *Explorer) inlinable(c *ssa.CallCommon, st *State) *ssa.Function {
 }
 
 func (e *Explorer) inline(callee *ssa.Function, site ssa.Instruction, c *ssa.CallCommon, st *State, cont func(*State, []AVal), emit func(Outcome)) {
+	e.inlineV(callee, site, c, st, func(s2 *State, ret []AVal, _ []ssa.Value) { cont(s2, ret) }, emit)
+}
+
+func (e *Explorer) inlineV(callee *ssa.Function, site ssa.Instruction, c *ssa.CallCommon, st *State, cont func(*State, []AVal, []ssa.Value), emit func(Outcome)) {
 	st2 := st.clone()
 	st2.depth++
 	args := c.Args
@@ -629,7 +637,7 @@ func (e *Explorer) inline(callee *ssa.Function, site ssa.Instruction, c *ssa.Cal
 			if len(st3.stack) > 0 {
 				st3.stack = st3.stack[:len(st3.stack)-1]
 			}
-			cont(st3, o.Ret)
+			cont(st3, o.Ret, o.RetVals)
 		default:
 			emit(o)
 		}
@@ -738,3 +746,22 @@ func (e *Explorer) RunFrom(fn *ssa.Function, after ssa.Instruction, seed map[ssa
 	sort.Slice(uniq, func(i, j int) bool { return uniq[i].Key() < uniq[j].Key() })
 	return uniq
 }
+
+// bindResultValues records, for an inlined call, which SSA values of the
+// callee the call's results denote on this path (so Root can follow them).
+func bindResultValues(call *ssa.Call, rvals []ssa.Value, st *State) {
+	if len(rvals) == 1 {
+		st.bind[call] = rvals[0]
+		return
+	}
+	if refs := call.Referrers(); refs != nil {
+		for _, r := range *refs {
+			if ex, ok := r.(*ssa.Extract); ok && ex.Index < len(rvals) {
+				st.bind[ex] = rvals[ex.Index]
+			}
+		}
+	}
+}
+
+// Effects returns the effects recorded so far on this path.
+func (s *State) Effects() []string { return s.effects }
